@@ -176,7 +176,7 @@ func drawOpFocus(rt *rapid.T, dirty bool, kind string, ver int) WOp {
 
 // HistCase: the probe is evaluated on a fresh object before and after a history.
 type HistCase struct {
-	Setup   []WOp `json:"setup"`   // brings the probe's receiver into its state (re-run on a fresh actor each time)
+	Setup   []WOp `json:"setup"` // brings the probe's receiver into its state (re-run on a fresh actor each time)
 	Probe   WOp   `json:"probe"`
 	History []WOp `json:"history"` // runs on another actor in between
 }
@@ -631,7 +631,6 @@ func (w Workload) contention() (v2parsers, vectorers, ops int) {
 	return
 }
 
-
 // ---- (f) cold start: the very first calls of a fresh process, made concurrently ------------
 
 // runWorkloadConcurrentFirst executes the workload concurrently BEFORE any sequential call has
@@ -913,9 +912,149 @@ func drawHot(rt *rapid.T, kind string, ver int, procs int, itersScale int) HotCa
 	return c
 }
 
+// ---- (i) retention: results kept for a long time while the package keeps working -------------
+
+// Retention: G goroutines (1 = sequential) each make N calls of one kind on a stream of different
+// objects / vectors of one version and keep the last W results, each with a private copy made at
+// once (Vector(): the bytes of the string; ParseVector: a clone of the object). A result is compared
+// with its copy when it leaves the window and at the end. A buffer or an object slot that the package
+// hands out a second time - because an offset wrapped after tens of thousands of calls, or because two
+// callers met at the moment a shared block was replaced - shows as a kept result that changed.
+type Retention struct {
+	Kind  string     `json:"kind"` // vector | parse
+	Ver   int        `json:"ver"`
+	Strs  []gen.BStr `json:"vectors"` // the stream cycles over these (different lengths) in an order derived from Step
+	Step  int        `json:"step"`
+	G     int        `json:"goroutines"`
+	N     int        `json:"calls_per_goroutine"`
+	W     int        `json:"window"`
+	Procs int        `json:"gomaxprocs"`
+}
+
+func runRetention(c Retention) error {
+	if c.Ver < 0 || c.Ver > 3 || c.G < 1 || c.W < 1 || len(c.Strs) == 0 {
+		return nil
+	}
+	p := adapt.Pkgs[c.Ver]
+	var objs []adapt.Obj
+	var strs []string
+	for _, bs := range c.Strs {
+		strs = append(strs, string(bs))
+		if o, err := p.Parse(string(bs)); err == nil && o != nil {
+			objs = append(objs, o)
+		}
+	}
+	if c.Kind == "vector" && len(objs) == 0 {
+		return nil
+	}
+	procs := c.Procs
+	if procs < 1 {
+		procs = 1
+	}
+	old := runtime.GOMAXPROCS(procs)
+	defer runtime.GOMAXPROCS(old)
+	var wg sync.WaitGroup
+	start := make(chan struct{})
+	errs := make([]error, c.G)
+	var stop int32
+	for g := 0; g < c.G; g++ {
+		wg.Add(1)
+		go func(g int) {
+			defer wg.Done()
+			defer func() {
+				if r := recover(); r != nil {
+					errs[g] = fmt.Errorf("goroutine %d panicked: %v", g, r)
+				}
+			}()
+			type kept struct {
+				s    string
+				copy []byte
+				o    adapt.Obj
+				oc   adapt.Obj
+				call int
+			}
+			win := make([]kept, c.W)
+			verify := func(k kept, now int) error {
+				if k.copy != nil && k.s != string(k.copy) {
+					return fmt.Errorf("v%s Vector() returned %q at call %d of goroutine %d; %d calls later the same string reads %q (%d goroutines, GOMAXPROCS=%d)", p.V.Name, string(k.copy), k.call, g, now-k.call, k.s, c.G, procs)
+				}
+				if k.o != nil && !k.o.Eq(k.oc) {
+					return fmt.Errorf("v%s ParseVector returned an object in state %s at call %d of goroutine %d; %d calls later it is in state %s although nobody touched it (%d goroutines, GOMAXPROCS=%d)", p.V.Name, k.oc.State(), k.call, g, now-k.call, k.o.State(), c.G, procs)
+				}
+				return nil
+			}
+			<-start
+			idx := g * 7
+			for i := 0; i < c.N && atomic.LoadInt32(&stop) == 0; i++ {
+				slot := i % c.W
+				if err := verify(win[slot], i); err != nil {
+					errs[g] = err
+					atomic.StoreInt32(&stop, 1)
+					return
+				}
+				idx += c.Step + i%3 // a drifting walk over the stream: the sequence of lengths does not repeat with a short period
+				if c.Kind == "vector" {
+					s := objs[idx%len(objs)].Vector()
+					win[slot] = kept{s: s, copy: append([]byte{}, s...), call: i}
+				} else {
+					o, err := p.Parse(strs[idx%len(strs)])
+					if err != nil || o == nil {
+						win[slot] = kept{}
+						continue
+					}
+					win[slot] = kept{o: o, oc: o.Clone(), call: i}
+				}
+			}
+			for _, k := range win {
+				if err := verify(k, c.N); err != nil {
+					errs[g] = err
+					atomic.StoreInt32(&stop, 1)
+					return
+				}
+			}
+		}(g)
+	}
+	close(start)
+	wg.Wait()
+	for _, e := range errs {
+		if e != nil {
+			return e
+		}
+	}
+	return nil
+}
+
+func drawRetention(rt *rapid.T, kind string, ver int, g int) Retention {
+	c := Retention{Kind: kind, Ver: ver, G: g, W: 4096, Procs: 16, Step: rapid.IntRange(1, 50).Draw(rt, "step")}
+	// a stream with many different lengths: valid vectors of every layout, and for the parser a share of rejected ones
+	for i, n := 0, rapid.IntRange(40, 80).Draw(rt, "nvectors"); i < n; i++ {
+		v := gen.ValidVector(rt, ver)
+		if kind == "parse" && rapid.IntRange(0, 4).Draw(rt, "bad") == 0 {
+			s, _ := gen.Mutate(rt, v)
+			c.Strs = append(c.Strs, gen.BStr(s))
+			continue
+		}
+		c.Strs = append(c.Strs, gen.BStr(v.S))
+	}
+	if g == 1 {
+		c.N = env.Scale(150000, 1500000)
+		c.Procs = 1
+	} else {
+		c.N = env.Scale(30000, 200000)
+	}
+	if env.Phase == "plain" {
+		c.N *= 4 // calls are several times cheaper without the race detector
+	}
+	return c
+}
+
 func TestC14(t *testing.T) {
 	h := start(t, "C14", "six generators: (a) a probe call (any exported function, generated arguments and receiver state) evaluated before and after an unrelated generated history that dirties shared state (14-part and over-long v2 vectors, failing parses, many Vector() calls) - results must be identical and parse results agree with the reference parser; (b,c) Vector() strings kept with a clone across further calls and two GC cycles, copies and repeated parses mutated independently; (d) workloads of 2-24 goroutines x up to 40 calls x up to 6 rounds on own objects and shared read-only objects, compared call by call with the sequential execution at GOMAXPROCS 1, 2, 4 and 16, (e) hot loops: for every (function, version) pair one pure function hammered by 2-16 goroutines for up to 24 million calls per case against precomputed results; (f) cold starts: for every (function, version) pair fresh child processes whose first calls are made concurrently by 16-48 goroutines and compared with the same calls made afterwards; the whole binary built with -race (a race report fails the check); non-trivial = a workload in which at least two goroutines run the v2.0 parser (the pool) or Vector() concurrently, or a probe/history pair whose history contains a v2.0 parse; distinct by case")
 	h.R.Assume("the Go scheduler is not controlled: interleavings are sampled (preemption, four GOMAXPROCS values); the race detector generalises from the observed runs to unsynchronised access pairs")
+	// plain: the second process of this check, built without the race detector (under which sync.Pool
+	// drops a quarter of its entries at random, so pooled state never grows old): it runs the
+	// sequential families and the retention runs, not the interleaving families
+	plain := env.Phase == "plain"
 	n := env.Scale(6000, 20000)
 	if env.Shards > 1 {
 		n = env.Scale(6000, 40000)
@@ -968,6 +1107,9 @@ func TestC14(t *testing.T) {
 	seq := 0
 	for _, procs := range []int{1, 2, 4, 16} {
 		procs := procs
+		if plain {
+			break
+		}
 		if h.replaying() {
 			if procs != 1 {
 				continue
@@ -1087,6 +1229,9 @@ func TestC14(t *testing.T) {
 	}
 	for _, hc := range hcombos {
 		hc := hc
+		if plain {
+			break
+		}
 		for _, procs := range []int{2, 16} {
 			procs := procs
 			if h.replaying() && (procs != 2 || hc != hcombos[0]) {
@@ -1115,6 +1260,42 @@ func TestC14(t *testing.T) {
 			}, check)
 		}
 	}
+	// (i) retention: Vector() for every version sequentially and concurrently; the parsers for two versions
+	// rotating with the seed in the quick tier
+	for ver := 0; ver < 4; ver++ {
+		for _, kind := range []string{"vector", "parse"} {
+			for _, g := range []int{1, 16} {
+				ver, kind, g := ver, kind, g
+				if h.replaying() && (ver != 0 || kind != "vector" || g != 1) {
+					continue
+				}
+				if kind == "parse" && env.Tier != "thorough" && !plain && (int(env.Seed)+ver)%2 != 0 {
+					continue
+				}
+				check := func(c Retention) error {
+					var err error
+					seq++
+					ok := h.t.Run(fmt.Sprintf("keep%d", seq), func(st *testing.T) { err = runRetention(c) })
+					if err != nil {
+						return err
+					}
+					if !ok {
+						return fmt.Errorf("the race detector reported a data race in the retention run %s (v%s, %d goroutines)", c.Kind, spec.Versions[c.Ver%4].Name, c.G)
+					}
+					return nil
+				}
+				Rapid(h, "retention", env.Scale(1, 3), func(rt *rapid.T) Retention {
+					c := drawRetention(rt, kind, ver, g)
+					h.R.Case(fmt.Sprintf("retention %s v%s goroutines=%d", kind, spec.Versions[ver].Name, g), fmt.Sprintf("KEEP%v", c))
+					h.R.Count("results kept and re-read after thousands of further calls", int64(c.G*c.N))
+					if h.R.WantSample("retention-" + kind) {
+						h.R.Sample("retention-"+kind, map[string]any{"version": spec.Versions[ver].Name, "goroutines": c.G, "calls_per_goroutine": c.N, "window": c.W, "stream_vectors": len(c.Strs)})
+					}
+					return c
+				}, check)
+			}
+		}
+	}
 	// (f) cold starts: every (function, version) combination gets its own fresh processes
 	type combo struct {
 		kind string
@@ -1133,6 +1314,9 @@ func TestC14(t *testing.T) {
 	}
 	for _, cb := range combos {
 		cb := cb
+		if plain {
+			break
+		}
 		Rapid(h, "cold-start", nc, func(rt *rapid.T) Workload {
 			w := Workload{Procs: []int{4, 16}[rapid.IntRange(0, 1).Draw(rt, "procs")], Rounds: env.Scale(3, 6)}
 			ng := rapid.IntRange(16, 48).Draw(rt, "goroutines")
